@@ -68,7 +68,10 @@ def d2(chk, prog):
     dp, ad0, ad1, idp, ao = (Term.sym(x, 0, INF, True) for x in ("DP", "AD0", "AD1", "INFO_DP", "AO"))
     depth_src = {"DP": ({"DP": dp}, {}, dp), "AD": ({"AD": (ad0, ad1)}, {}, t_add(ad0, ad1)), "INFO": ({}, {"DP": idp}, idp), "none": ({}, {}, None)}
     count_src = {"AD pair": ({"AD": (ad0, ad1)}, ad1), "AD single-element": ({"AD": (ad0,)}, 0), "AD scalar": ({"AD": ad1}, ad1), "CLCAD2": ({"CLCAD2": (ad0, ad1)}, ad1),
-                 "AO tuple": ({"AO": (ao, ad1)}, t_add(ao, ad1)), "AO scalar": ({"AO": ao}, ao), "none": ({}, None)}
+                 "AO tuple": ({"AO": (ao, ad1)}, t_add(ao, ad1)), "AO scalar": ({"AO": ao}, ao), "none": ({}, None),
+                 # a FORMAT field that is listed but has no value ('.', which pysam hands over as (None,) / None) is missing: the next source is used
+                 "AD missing, AO given": ({"AD": (None,), "AO": ao}, ao), "AD missing, CLCAD2 given": ({"AD": (None,), "CLCAD2": (ad0, ad1)}, ad1), "AD None, AO tuple": ({"AD": None, "AO": (ao, ad1)}, None),
+                 "AD and CLCAD2 missing, AO given": ({"AD": (None,), "CLCAD2": (None,), "AO": ao}, ao), "AD missing, nothing else": ({"AD": (None,)}, None)}
     for gt, (dname, (dfmt, dinfo, dwant)), (cname, (cfmt, cwant)) in itertools.product(gts, depth_src.items(), count_src.items()):
         sample_f = dict(dfmt)
         sample_f.update(cfmt)
@@ -76,15 +79,16 @@ def d2(chk, prog):
         if "DP" in sample_f:
             dwant_eff = sample_f["DP"]
         elif isinstance(sample_f.get("AD"), tuple):
-            dwant_eff = t_add(ad0, ad1) if len(sample_f["AD"]) == 2 else ad0
+            present = [x for x in sample_f["AD"] if x is not None]
+            dwant_eff = 0 if not present else (t_add(ad0, ad1) if len(present) == 2 else ad0)
         elif "DP" in dinfo:
             dwant_eff = dinfo["DP"]
         else:
             dwant_eff = None
-        if "AD" in sample_f:
+        if sample_f.get("AD") not in (None, (None,)):
             a = sample_f["AD"]
             cwant = (a[1] if len(a) > 1 else 0) if isinstance(a, tuple) else a
-        elif "CLCAD2" in sample_f:
+        elif sample_f.get("CLCAD2") not in (None, (None,)):
             cwant = sample_f["CLCAD2"][1]
         elif "AO" in sample_f:
             cwant = t_add(ao, ad1) if isinstance(sample_f["AO"], tuple) else ao
@@ -416,6 +420,46 @@ def d7(chk, prog):
         tb.cell(ok, dict(filters=filters, table_seen_by_baf_by_ranges=dict(stages=seen.get("stages"), columns=seen.get("cols")), result_stages=out.meta.get("stages", ()),
                          baf=[repr(x) for x in out.data.cols["baf"].v] if "baf" in out.data.cols else None))
     tb.done("the BAF column is not computed over the segments that are finally reported (e.g. before segments are merged by the ci / sem filters)")
+    # purity rescaling of the BAF: whenever a purity < 1 is given -- for every calling method, `none` included -- and only then
+    tb2 = Table(chk, "baf-per-segment", "do_call with variants: baf column x calling method {threshold, clonal, none} x purity {absent, 1, 1/2}: rescale_baf(purity, observed) iff purity < 1", fi.loc(), fi.qn + "::purity rescaling")
+    for method, purity in itertools.product(["threshold", "clonal", "none"], [None, 1, Fr(1, 2)]):
+        W.reset()
+        model = par_model()
+        n = 3
+        bafs = [Term.sym(f"baf{i}", 0, 1) for i in range(n)]
+        resc = [Term.sym(f"rescaled{i}", 0, 1) for i in range(n)]
+        seen = {}
+
+        def rescale(it, pur, col, seen=seen, resc=resc):
+            seen["rescale_args"] = (pur, list(col.v) if isinstance(col, Vec) else col)
+            return Vec(resc, aligned=getattr(col, "aligned", True))
+        model.prims["cnvlib.call.rescale_baf"] = rescale
+        for nm in ("absolute_threshold", "absolute_clonal", "absolute_pure"):
+            model.prims[f"cnvlib.call.{nm}"] = lambda it, cn, *a, nm=nm, **k: Vec([Term.sym(f"{nm}{i}", 0, INF, True) for i in range(n)])
+        model.prims["cnvlib.call.log2_ratios"] = lambda it, cn, *a, **k: Vec([Term.sym(f"L{i}") for i in range(n)])
+        rows = [dict(chromosome="chr1", start=Term.sym(f"s{i}"), end=Term.sym(f"e{i}"), gene="g", log2=Term.sym(f"v{i}"), probes=5, weight=1) for i in range(n)]
+        g = make_ga("CopyNumArray", rows, {"_classes": ["auto"] * n, "sample_id": "S"}, index="any")
+        variants = make_ga("VariantArray", [dict(chromosome="chr1", start=5, end=6, ref="A", alt="C", zygosity=Fr(1, 2), alt_freq=Term.sym("af", 0, 1))], {"sample_id": "S"})
+        model.method_prims["baf_by_ranges"] = lambda it, v, other, *a, **k: Vec(bafs, aligned="any")
+        it = Interp(prog, model)
+        old = CTX.atoms
+        CTX.atoms = lambda d, op: True
+        try:
+            out = tb2.guard(lambda: it.run(fi.qn, [g, variants, method, 2, purity, False, False, None, None]), f"method={method} purity={purity}")
+        finally:
+            CTX.atoms = old
+        if out is None:
+            continue
+        want = resc if (purity is not None and purity < 1) else bafs
+        got = out.data.cols["baf"].v if "baf" in out.data.cols else None
+        ok = got is not None and all(same(a, b) for a, b in zip(got, want))
+        if purity is not None and purity < 1:
+            ra = seen.get("rescale_args")
+            ok = ok and ra is not None and same(ra[0], purity) and all(same(a, b) for a, b in zip(ra[1], bafs))
+        else:
+            ok = ok and "rescale_args" not in seen
+        tb2.cell(ok, dict(method=method, purity=str(purity), baf=[repr(x) for x in got] if got else None, want=[repr(x) for x in want]))
+    tb2.done("the segment BAFs are not purity-rescaled exactly when a purity < 1 is given (all calling methods alike)")
 
 
 def run(chk):
